@@ -469,7 +469,7 @@ def r6(ctx) -> None:
     p = rc.params()
     labels_p, red_labels_p, red_clps_p, index_p = p[1], p[2], p[3], p[4]
     inits = [d for d in fl.defs_of("clps") if d.kind == "assign"]
-    ok = any(isinstance(d.value, ast.Call) and norm(d.value.func) in ("np.zeros", "numpy.zeros") and norm(d.value.args[0]) == f"len({labels_p})" for d in inits)
+    ok = any(isinstance(d.value, ast.Call) and norm(d.value.func) in ("np.zeros", "numpy.zeros") and lib.xnorm(fl, d.value.args[0], d.stmt) == f"len({labels_p})" for d in inits)
     ctx.ob("C03-R6", "retrieve_clps/zero-initialised", ok, rc, inits[0].stmt if inits else rc.node,
            "the full clp vector starts as zeros over the full label list (constrained clps stay exactly 0)")
     st = [(t, s) for t, s in lib.stores(rc) if isinstance(t, ast.Subscript) and norm(t.value) == "clps"]
